@@ -46,11 +46,16 @@ bool exec_forms(ExecCtx &c) {
               c08_note(E_BILIN, x.getSupport().getGrid(), y.getSupport().getGrid());
               uint64_t got = 0;
               if (!same) sim::g_cur->note = 1;
+              const int cx = value_cat(c, xs, 0, false), cy = value_cat(c, ys, 1, false);
               libcall(out, [&] {
                 with_plain_bilin(r, s, [&](auto &&bf) {
-                  T v = bf(x, y);
-                  sim::Exempt e;
-                  got = v.bits();
+                  as_cat(cx, x, [&](auto &&xx) {
+                    as_cat(cy, y, [&](auto &&yy) {
+                      T v = bf(SIM_FWD(xx), SIM_FWD(yy));
+                      sim::Exempt e;
+                      got = v.bits();
+                    });
+                  });
                 });
               });
               out.obs = hmix(out.obs, got);
@@ -123,11 +128,14 @@ bool exec_forms(ExecCtx &c) {
         std::visit(
             [&](const auto &x) {
               uint64_t got = 0;
+              const int cx = value_cat(c, xs, 0, false);
               libcall(out, [&] {
                 with_plain_recipe(r, s, [&](auto &&o) {
-                  T v = integ::LinearForm{std::move(o)}(x);
-                  sim::Exempt e;
-                  got = v.bits();
+                  as_cat(cx, x, [&](auto &&xx) {
+                    T v = integ::LinearForm{std::move(o)}(SIM_FWD(xx));
+                    sim::Exempt e;
+                    got = v.bits();
+                  });
                 });
               });
               out.obs = hmix(out.obs, got);
@@ -137,6 +145,7 @@ bool exec_forms(ExecCtx &c) {
       }
       const SpV *vs = ref_sp_maxorder(c, op.d, MAXFACT);
       if (!vs) return true;
+      const T fs = scalar_choice(1 + (op.a / N_RECIPES) % 11);  // non-zero
       std::visit(
           [&](const auto &x, const auto &v) {
             using V = std::decay_t<decltype(v)>;
@@ -150,7 +159,7 @@ bool exec_forms(ExecCtx &c) {
               uint64_t got = 0;
               if (has_int && !same) sim::g_cur->note = 1;
               libcall(out, [&] {
-                with_factor_recipe(r, v, [&](auto &&o) {
+                with_factor_recipe(r, v, fs, [&](auto &&o) {
                   T val = integ::LinearForm{std::move(o)}(x);
                   sim::Exempt e;
                   got = val.bits();
